@@ -28,10 +28,13 @@ from harness import lib
 from harness.lib import cb, cl, cn, cs
 
 from pyiron_workflow.nodes.function import as_function_node
+from pyiron_workflow.nodes.macro import as_macro_node
+from pyiron_workflow.nodes.standard import UserInput as _UserInput
 
 PROP = "C18"
 IMPORTS = "Base Inject"
-RULE = ("1-3 user nodes (UserInput / two-output function node; values from a pool of None, bools, ints, floats, "
+RULE = ("1-3 user nodes (UserInput / two-output function node / single-output MACRO node (a composite; node.attr and "
+        "node[item] mean child access there and are written on its channel instead); values from a pool of None, bools, ints, floats, "
         "strings, lists, tuples, sets, dicts, slices; already run or not), inside a Workflow (75%) or parentless, "
         "and a program of 2-8 written operations over all 30 entry points + channel-containing slices + "
         "unsupported reflected operators: receivers are channels, single-output nodes, the two-output node "
@@ -65,6 +68,13 @@ ASSUMPTIONS = ["hash of the nominal label is injective (Section hypothesis hash_
 @as_function_node("p", "q")
 def Two18(a, b):
     return a, b
+
+
+@as_macro_node("out")
+def Mac18(self, a):
+    """a single-output COMPOSITE node: its output is its input"""
+    self.inner = _UserInput(a)
+    return self.inner
 
 
 # ---- values ----------------------------------------------------------------------------------
@@ -200,7 +210,10 @@ DUNDER = {"getattr": "__getattr__", "getitem": "__getitem__", "lt": "__lt__", "l
           "and": "__and__", "xor": "__xor__", "or": "__or__", "neg": "__neg__", "pos": "__pos__", "abs": "__abs__",
           "invert": "__invert__", "int": "int", "float": "float", "round": "__round__"}
 MIRROR = {"lt": operator.gt, "le": operator.ge, "gt": operator.lt, "ge": operator.le, "ne": operator.ne}
-CHAN_LABELS = {"ui": ["user_input"], "two": ["p", "q"]}
+CHAN_LABELS = {"ui": ["user_input"], "two": ["p", "q"], "mac": ["out"]}
+# a composite answers node.attr and node[item] with its CHILDREN (LexicalParent.__getattr__ / Composite.__getitem__),
+# so these three are written on the macro node's channel, never on the node itself
+CHILD_ACCESS = ("getattr", "getitem")
 
 
 def _tolist(x):
@@ -229,7 +242,8 @@ def gen_users(rng):
     labels = rng.sample(["x", "y", "z", "n0"], n)
     users = []
     for l in labels:
-        kind = "two" if rng.random() < 0.2 else "ui"
+        r = rng.random()
+        kind = "two" if r < 0.2 else "mac" if r < 0.4 else "ui"
         vals = [gen_value(rng, theme) for _ in CHAN_LABELS[kind]]
         users.append({"label": l, "kind": kind, "vals": vals, "ran": rng.random() < 0.6})
     return users, theme
@@ -243,8 +257,8 @@ def gen_ref(rng, users, nres, theme, raw_p=0.0, allow_amb=True):
         return ["res", rng.randrange(nres), rng.randrange(2)]
     u = rng.randrange(len(users))
     kind = users[u]["kind"]
-    if kind == "ui":
-        return ["node", u] if rng.random() < 0.5 else ["chan", u, 0]
+    if kind in ("ui", "mac"):
+        return ["node", u] if rng.random() < (0.5 if kind == "ui" else 0.75) else ["chan", u, 0]
     if allow_amb and rng.random() < 0.12:
         return ["node", u]           # two outputs: ambiguous
     return ["chan", u, rng.randrange(2)]
@@ -324,7 +338,7 @@ def near_identical(rng, users, step, theme):
     if chans and r < 0.75:
         i = rng.choice(chans)
         u = refs[i][1]
-        if users[u]["kind"] == "ui" or refs[i][0] == "chan":
+        if users[u]["kind"] in ("ui", "mac") or refs[i][0] == "chan":
             j = refs[i][2] if refs[i][0] == "chan" else 0
             refs[i] = ["raw", S(_scoped(users, u, j))]
             return s
@@ -340,6 +354,13 @@ def near_identical(rng, users, step, theme):
     return s
 
 
+def _mac_child_access(users, s):
+    if (s["k"] == "slice" or (s["k"] == "op" and s["e"] in CHILD_ACCESS)) and s["recv"][0] == "node" \
+            and users[s["recv"][1]]["kind"] == "mac":
+        s = dict(s, recv=["chan", s["recv"][1], 0])
+    return s
+
+
 def gen_case(rng):
     users, theme = gen_users(rng)
     steps = []
@@ -351,7 +372,7 @@ def gen_case(rng):
             if "sp" in s:
                 s["sp"] = rng.randrange(3)
             if s["k"] == "op" and rng.random() < 0.3 and s["recv"][0] in ("node", "chan") \
-                    and users[s["recv"][1]]["kind"] == "ui":
+                    and users[s["recv"][1]]["kind"] in ("ui", "mac"):
                 s["recv"] = ["node", s["recv"][1]] if s["recv"][0] == "chan" else ["chan", s["recv"][1], 0]
         elif steps and r < 0.4:
             s = near_identical(rng, users, rng.choice(steps), theme)
@@ -362,7 +383,7 @@ def gen_case(rng):
                 if exp[0] == "ok" or rng.random() < 0.2:
                     break
                 s = gen_step(rng, users, len(steps), theme)
-        steps.append(s)
+        steps.append(_mac_child_access(users, s))
     return {"parent": rng.random() < 0.75, "users": users, "steps": steps}
 
 
@@ -429,6 +450,28 @@ def hash_twin_family():
     return out
 
 
+def macro_node_family():
+    """operations spelled on a single-output MACRO node itself, parentless and as a Workflow child:
+    the named helpers (eq, bool, len, contains, int, float) and a few dunders; then the same on its channel"""
+    out = []
+    lst, num = ["list", [I(1), I(2), I(3)]], FL("2.5")
+    k = 0
+    for e, val, other in [("len", lst, None), ("bool", lst, None), ("contains", lst, I(2)), ("contains", lst, I(7)),
+                          ("eq", lst, ["list", [I(1), I(2), I(3)]]), ("eq", lst, N_), ("int", num, None),
+                          ("float", I(3), None), ("bool", I(0), None), ("len", S("ab"), None), ("add", lst, ["list", [I(0)]]),
+                          ("round", num, None), ("lt", num, I(3)), ("neg", num, None), ("rmul", lst, I(2))]:
+        for parent in (True, False):
+            for ran in (True, False):
+                k += 1
+                users = [{"label": "m", "kind": "mac", "vals": [val], "ran": ran}]
+                others = [] if other is None else [["raw", other]]
+                steps = [{"k": "op", "e": e, "recv": ["node", 0], "others": others, "pull": True, "sp": k % 2},
+                         {"k": "op", "e": e, "recv": ["node", 0], "others": others, "pull": k % 3 == 0, "sp": (k + 1) % 2},
+                         {"k": "op", "e": e, "recv": ["chan", 0, 0], "others": others, "pull": True, "sp": 0}]
+                out.append({"parent": parent, "users": users, "steps": steps})
+    return out
+
+
 def generate(ctx):
     rng = ctx.rng
     cases, seen = [], set()
@@ -438,7 +481,10 @@ def generate(ctx):
     mf = macro_family()
     if ctx.quick:
         mf = [c for i, c in enumerate(mf) if (i + ctx.seed) % 2 == 0]
-    hm = hm + framing_family() + hash_twin_family() + mf
+    mn = macro_node_family()
+    if ctx.quick:
+        mn = [c for i, c in enumerate(mn) if (i + ctx.seed) % 2 == 0]
+    hm = hm + framing_family() + hash_twin_family() + mf + mn
     for c in hm:
         seen.add(json.dumps(c, sort_keys=True))
         cases.append(c)
@@ -522,7 +568,7 @@ def run_impl(case):
         users = []
         for u in case["users"]:
             vals = [build_val(v) for v in u["vals"]]
-            cls = std.UserInput if u["kind"] == "ui" else Two18
+            cls = {"ui": std.UserInput, "two": Two18, "mac": Mac18}[u["kind"]]
             n = cls(*vals, label=u["label"], parent=wf)
             if u["ran"]:
                 n.run()
